@@ -27,6 +27,7 @@ type StoreCfg struct {
 	StoreCache int  `json:"store_cache"`
 	IndexCache int  `json:"index_cache"`
 	CtxAware   bool `json:"ctx_aware"`
+	Metrics    bool `json:"metrics,omitempty"` // store.WithMetrics: must not change any behaviour
 }
 
 func genStoreCfg(t *rapid.T) StoreCfg {
@@ -43,11 +44,16 @@ func genStoreCfg(t *rapid.T) StoreCfg {
 	case 1:
 		c.IndexCache = 1
 	}
+	c.Metrics = rapid.IntRange(0, 3).Draw(t, "metrics") == 0
 	return c
 }
 
 func (c StoreCfg) opts() []store.Option {
-	return []store.Option{store.WithWriteBatchSize(c.Batch), store.WithStoreCacheSize(c.StoreCache), store.WithIndexCacheSize(c.IndexCache)}
+	o := []store.Option{store.WithWriteBatchSize(c.Batch), store.WithStoreCacheSize(c.StoreCache), store.WithIndexCacheSize(c.IndexCache)}
+	if c.Metrics {
+		o = append(o, store.WithMetrics())
+	}
+	return o
 }
 
 const storePrefix = "/headers"
